@@ -454,7 +454,7 @@ def _check_wiring(R, F, CG):
     if all(n in calls for n in need):
         st = calls["start"].bb
         for n in ("set_http_middleware", "set_rpc_middleware"):
-            R.ob(f.dominates(calls[n].bb, st), "WIRE", calls[n].where(), "WIRE|server|%s-before-start" % n,
+            R.ob(f.sdominates(calls[n].bb, st), "WIRE", calls[n].where(), "WIRE|server|%s-before-start" % n,
                  "%s does not dominate Server::start" % n, sample={"rule": "DOM", "a": n, "b": "start"})
         # data flow: the object passed to set_http_middleware derives from the ValidateRequestHeaderLayer::custom(auth) layer
         o = show(origin(f, calls["set_http_middleware"].args[1]))
@@ -500,7 +500,7 @@ def _check_wiring(R, F, CG):
         for n in ("validate_config", "start_rpc_server"):
             R.ob(n in cs, "WIRE", sf.where(), "WIRE|start|%s" % n, "start() no longer calls %s" % n)
         if "validate_config" in cs and "start_rpc_server" in cs:
-            R.ob(sf.dominates(cs["validate_config"].bb, cs["start_rpc_server"].bb), "WIRE", cs["validate_config"].where(),
+            R.ob(sf.sdominates(cs["validate_config"].bb, cs["start_rpc_server"].bb), "WIRE", cs["validate_config"].where(),
                  "WIRE|start|validate-before-server", "validate_config does not dominate start_rpc_server")
             R.ob(_err_propagated(sf, cs["validate_config"]), "ERR-PROP", cs["validate_config"].where(),
                  "ERR-PROP|start|validate_config", "the Result of validate_config is not propagated with `?`")
